@@ -44,4 +44,20 @@ theorem daemons_tied :
                            .alt [[], [.call Gen.SyncSkel.f_Casper_ApplyBlock, .go Gen.SyncSkel.f_Chain_blockProcessor]]]]] := by
   decide
 
+/-- fix 7fe07751 (finding C37:stale-rollback): the block processor answers a rollback request with
+    the fork choice as it is WHEN THE REQUEST IS HANDLED — between the receive from `rollbackCh` and
+    `tryReorganize` it calls `casper.BestChain()` (read lock of casper.mu) — instead of the hash the
+    requester computed before it released casper.mu. (The skeleton has no data, so the stale state
+    itself is not expressible; what is tied is that the read of the fork choice is there.) -/
+theorem rollback_follows_fork_choice :
+    (Gen.SyncSkel.skeleton.lookup Gen.SyncSkel.f_Chain_blockProcessor).map
+        (fun b => match b with
+          | [.loop true [.sel [_, arm]]] => arm
+          | _ => [])
+      = some [.act (.recv Gen.SyncSkel.ch_Casper_rollbackCh), .call Gen.SyncSkel.f_Casper_BestChain,
+              .call Gen.SyncSkel.f_Chain_tryReorganize, .act (.sendReply Gen.SyncSkel.rp_RollbackMsg_Reply)]
+    ∧ Gen.SyncSkel.skeleton.lookup Gen.SyncSkel.f_Casper_BestChain
+      = some [.act (.rlock Gen.SyncSkel.m_Casper_mu), .act (.runlock Gen.SyncSkel.m_Casper_mu)] := by
+  decide
+
 end BytomModel.Ties.C37
